@@ -118,3 +118,48 @@ def dominate_some(cases, seed, p=0.125):
     for case in cases:
         if drng.random() < p and not case.get("valid_counts"):
             dominate(case, drng)
+
+
+# ------------------------------------------------------------------------------------
+# READ-ORDER LEG (shared): a statement about an output must hold whatever was read before it.
+# ------------------------------------------------------------------------------------
+
+def _canon_read(r):
+    from harness.props import c18_util as hu
+    return ["ok", hu.canon(r[1])] if r[0] == "ok" else ["exc", r[1]]
+
+
+def late_reads(case, names, fresh, limit_culprits=4):
+    """Build a second partition from the same arguments (population chosen from the case number), read
+    EVERY public property of it (enumerated by introspection in c18_util.READS, + the method reads) in
+    an order shuffled by a PRNG seeded with the case number, then read `names`; compare value-exactly
+    (NaN = NaN) with `fresh` (name -> impl.get result read on a fresh partition).
+    Returns (population, [(name, fresh_canon, late_canon, single_earlier_reads_that_change_it)])."""
+    import random
+    from harness.props import c18_util as hu
+    rng = random.Random(1000003 * int(case.get("k", 0)) + 29)
+    population = rng.choice([None, 1000, 75])
+    p = impl.partition(case["response"], case["transforms"], population=population)
+    reads = list(hu.READS.get(type(p).__name__, []))
+    rng.shuffle(reads)
+    for name, args in reads:
+        impl.get(p, name, *args)
+    out = []
+    for n in names:
+        if n not in fresh:
+            continue
+        a, b = _canon_read(fresh[n]), _canon_read(impl.get(p, n))
+        if a == b:
+            continue
+        culprits = []
+        for pre, args in reads:
+            if pre == n:
+                continue
+            q = impl.partition(case["response"], case["transforms"], population=population)
+            impl.get(q, pre, *args)
+            if _canon_read(impl.get(q, n)) != a:
+                culprits.append(pre)
+                if len(culprits) >= limit_culprits:
+                    break
+        out.append((n, a, b, culprits))
+    return population, out
